@@ -300,6 +300,10 @@ func TestWorker(t *testing.T) {
 		res := sim.RunOne(t, sc, tape, onlyRun >= 0 && os.Getenv("VERIF_TRACE") != "")
 		watchdogDeadline.Store(0)
 		res.Seed, res.Run = seed, run
+		if ms := envInt("VERIF_SLOW_MS", 0); ms > 0 && res.WallMs > float64(ms) {
+			// debugging aid: runs that come near the per-run wall-clock watchdog
+			fmt.Fprintf(os.Stderr, "SLOW run=%d scenario=%s wall=%.0fms steps=%d cfg=%v stats=%v\n", run, sc.Name, res.WallMs, res.Steps, res.Summary, res.Stats)
+		}
 		if onlyRun >= 0 && os.Getenv("VERIF_TRACE") != "" {
 			for _, l := range res.Trace {
 				fmt.Println(l)
